@@ -47,7 +47,7 @@ func (c *Client) runRaw() {
 			if path == "" {
 				path = c.path()
 			}
-			rs := ReqSpec{Method: op.Method, Path: path, Query: q, Hdr: op.Hdr, Body: op.Body, BodyGen: op.BodyGen, NoCL: op.NoCL}
+			rs := ReqSpec{Method: op.Method, Path: path, Query: q, Hdr: op.Hdr, Body: op.Body, BodyGen: op.BodyGen, NoCL: op.NoCL, BodyErrAt: op.BodyErrAt}
 			if rs.Body == nil && op.Method == "POST" && op.BodyGen == 0 {
 				rs.Body = []byte{}
 			}
